@@ -435,15 +435,20 @@ func (r *Rig) RunSys(sc *SysScenario, index int) *Result {
 		go ses.readStream(conn, "down", sc.Down)
 	}
 	tick := time.NewTicker(20 * time.Millisecond)
+	var lastMoved int64 = -1
+	lastProgress := time.Now()
 	for range tick.C {
 		if ses.complete() {
 			res.Done = true
 			break
 		}
+		if moved := atomic.LoadInt64(&ses.got[0]) + atomic.LoadInt64(&ses.got[1]); moved != lastMoved {
+			lastMoved, lastProgress = moved, time.Now()
+		}
 		sr.omu.Lock()
 		lf := sr.lastFault
 		sr.omu.Unlock()
-		if time.Since(lf) > bound {
+		if time.Since(lf) > bound && time.Since(lastProgress) > bound {
 			res.Stalled = true
 			break
 		}
